@@ -203,7 +203,7 @@ class Body:
         return s
 
     # ---- provenance ----------------------------------------------------------------------
-    def provenance(self, op_or_local, through_calls=True, max_nodes=4000, skip_arg_ty=None, follow=()):
+    def provenance(self, op_or_local, through_calls=True, max_nodes=4000, skip_arg_ty=None, follow=(), stop=None):
         """Backward, flow-insensitive slice. Returns a Prov with: params (set of (idx, projection
         string)), consts (set of (ty, value/def)), calls (set of (callee, block)), locals visited."""
         pv = Prov()
@@ -227,6 +227,9 @@ class Body:
                     pv.calls.add((callee, bi))
                     if rec.get("fn"):
                         pv.decls.add((rec["fn"], bi))
+                    if stop is not None and stop(rec):
+                        pv.stopped.add((callee, bi))
+                        continue
                     if through_calls or (rec.get("fn") in follow):
                         for a, aty in zip(rec["args"], rec.get("argtys", [""] * len(rec["args"]))):
                             if skip_arg_ty is not None and skip_arg_ty(aty):
@@ -339,6 +342,7 @@ class Prov:
         self.places = set()
         self.aggs = set()
         self.decls = set()
+        self.stopped = set()
 
     def callees(self):
         """resolved and declared callee paths of every call in the slice"""
